@@ -87,7 +87,7 @@ class Pathway:
         if not self.dims:
             raise AttributeError(f'Dimensions are needed for this method {self.dims=}')
         xdim, ydim, zdim = self.dims
-        return [(x % xdim, y % xdim, z % xdim) for x, y, z in self.sites]
+        return [(x % xdim, y % ydim, z % zdim) for x, y, z in self.sites]
 
     def frac_sites(self) -> np.ndarray:
         """Return fractional site coordinates.
